@@ -1337,6 +1337,17 @@ func cdcExecMal(a Args) string {
 				return "res=ok:rspec stable=VIOLATED:changed"
 			}
 
+			// decoding into a destination that was used before (a variable reused across a list of resources) must
+			// give the same value as decoding into a fresh one: nothing of the previous content may survive
+			s3 := protobuf.NewResourceSpec(&v1alpha1.Metadata{
+				Namespace: "stale-ns", Type: "stale-type", Id: "stale-id", Version: "77", Owner: "stale-owner", Phase: "tearingDown",
+				Finalizers: []string{"stale-f1", "stale-f2"}, Labels: map[string]string{"stale": "label"}, Annotations: map[string]string{"stale": "annotation"},
+			})
+
+			if err := s3.UnmarshalProto(b); err != nil || !s.Equal(&s3) {
+				return "res=ok:rspec stable=VIOLATED:reused-destination"
+			}
+
 			return "res=ok:rspec stable=ok"
 		}
 
